@@ -628,10 +628,12 @@ pub struct Ex<H> {
     odd: bool,
     out: String,
     regtxt: String,
-    /// set after an unwound `retain` / `retain_mut`: the IndexMap's index
-    /// table is stale, which the model does not describe.  The remaining ops
-    /// are still executed (an abort there is a finding) but print nothing.
+    /// set when a panic of the crate's own follows a caught panic (the model
+    /// stops at a fault).  The remaining ops are still executed, because an
+    /// abort there is a memory-safety finding, but print nothing.
     silent: bool,
+    /// a fuse fired earlier in this history
+    had_unwound: bool,
 }
 
 fn two_mut<T>(v: &mut [T], a: usize, b: usize) -> (&mut T, &mut T) {
@@ -670,6 +672,7 @@ impl<H: BuildHasher + Default + Clone> Ex<H> {
             out: String::new(),
             regtxt: String::new(),
             silent: false,
+            had_unwound: false,
         }
     }
 
@@ -764,6 +767,15 @@ impl<H: BuildHasher + Default + Clone> Ex<H> {
         self.regtxt = regtxt;
         line.push('\n');
         self.out = out;
+        if unwound {
+            self.had_unwound = true;
+        }
+        if dead && self.had_unwound {
+            // a (safe) panic after a caught one: the printed history ends here,
+            // the execution goes on silently
+            self.silent = true;
+            return false;
+        }
         dead
     }
 
